@@ -379,6 +379,15 @@ class OsProxy:
     def sysconf(self, name):
         return self.k.sysconf[name]
 
+    def statvfs(self, path):
+        self.k.access("statvfs", path)
+        tbl = getattr(self.k, "statvfs", {})
+        if path in tbl:
+            return tbl[path]
+        raise oserr(errno.ENOENT, path)
+
+    F_OK, R_OK, W_OK, X_OK = _os.F_OK, _os.R_OK, _os.W_OK, _os.X_OK
+
     def getpid(self):
         return 4242
 
